@@ -27,7 +27,7 @@ CASES = {"quick": 12000, "thorough": 150000}
 MIN_CASES = {"quick": 2500, "thorough": 2500}
 REQUIRED_CLASSES = ["int_origin", "nonuniform", "fractional_size", "shifted_origin", "scaled", "decimal"]
 REQUIRED_COUNTERS = ["model_sets_compared", "models_enumerated", "reference_shapes_enumerated", "solve_return_checked", "bound:none", "bound:optimum", "bound:optimum+1",
-                     "via:direct", "via:allocation", "via:select_box", "k:1", "k:2", "k:3"]
+                     "via:direct", "via:allocation", "via:select_box", "order:reversed", "order:snake", "order:shuffled", "order:column_major", "k:1", "k:2", "k:3"]
 SOFT_DEADLINE = {"quick": 240, "thorough": 3300}
 
 _rect = _sat = _Solver = _rio = None
@@ -100,7 +100,7 @@ def generate(rng, tier, i):
         sx, sy = rng.choice([F(-21, 10), F(-7), F(-3, 2), F(-1, 10), F(-5)]), rng.choice([F(-7), F(-21, 10), F(0), F(-3, 10)])
         xs, ys = [x + sx for x in xs], [y + sy for y in ys]
     return {"cls": cls, "xs": [geo.fl(x) for x in xs], "ys": [geo.fl(y) for y in ys], "occ": occ, "k": k, "bound": bound,
-            "via": via, "bseed": rng.randrange(1 << 30)}
+            "via": via, "bseed": rng.randrange(1 << 30), "order": rng.choice(["row_major", "row_major", "reversed", "column_major", "snake", "shuffled"])}
 
 
 def directed():
@@ -123,7 +123,27 @@ def cells_of(case):
     for j in range(ny):
         for i in range(nx):
             out.append((xs[i], ys[j], xs[i + 1], ys[j + 1], case["occ"][j * nx + i]))
-    return out, nx, ny
+    order = cell_order(case, nx, ny)
+    return [out[o] for o in order], nx, ny
+
+
+def cell_order(case, nx, ny):
+    """the order in which the cells are listed in the input (an allocation lists its cells in no particular order):
+    position n of the input holds the row-major cell order[n]"""
+    import random
+    kind = case.get("order") or "row_major"
+    n = nx * ny
+    if kind == "reversed":
+        return list(range(n - 1, -1, -1))
+    if kind == "column_major":
+        return [j * nx + i for i in range(nx) for j in range(ny)]
+    if kind == "snake":
+        return [j * nx + (i if j % 2 == 0 else nx - 1 - i) for j in range(ny) for i in range(nx)]
+    if kind == "shuffled":
+        o = list(range(n))
+        random.Random(case["bseed"]).shuffle(o)
+        return o
+    return list(range(n))
 
 
 def reference_shapes(nx, ny, k):
@@ -218,7 +238,7 @@ def check(case, ctx):
     ctx.count("via:" + case["via"])
     ctx.count(f"k:{k}")
     ctx.nontrivial(nb >= 2 and k >= 2)
-    what = f"grid xs={case['xs']} ys={case['ys']} occ={case['occ']} k={k} via={case['via']}"
+    what = f"grid xs={case['xs']} ys={case['ys']} occ={case['occ']} k={k} via={case['via']} order={case.get('order')}/{case['bseed']}"
     ok, prep = ctx.call(prepare, case)
     if not ok:
         ctx.violation("prepare_raised", f"building the problem raised {type(prep).__name__}: {str(prep)[:200]} :: {what}")
@@ -231,7 +251,10 @@ def check(case, ctx):
         return
     if tool_cells != cells:
         ctx.count("grid_coordinates_perturbed_by_rounding")
-    ref_all = reference_shapes(nx, ny, k)
+    order = cell_order(case, nx, ny)
+    pos = {o: n_ for n_, o in enumerate(order)}         # row-major cell -> position in the input
+    ctx.count("order:" + (case.get("order") or "row_major"))
+    ref_all = {tuple(frozenset(pos[c] for c in box) for box in sh) for sh in reference_shapes(nx, ny, k)}
     # objective on the cells exactly as the tool holds them (its fixed-point areas are floor(10000 * float area))
     objs = {sh: objective(tool_cells, frozenset().union(*sh)) for sh in ref_all}
     opt = max(objs.values()) if objs else 0
